@@ -31,7 +31,7 @@ LEAF_SAMPLES = {
     datetime.datetime: [datetime.datetime(2020, 1, 2, 3, 4, 5), datetime.datetime(2020, 1, 2, 3, 4, 5, tzinfo=datetime.timezone.utc)],
     datetime.date: [datetime.date(2020, 1, 2)],
     datetime.time: [datetime.time(3, 4, 5)],
-    datetime.timedelta: [datetime.timedelta(seconds=90)],
+    datetime.timedelta: [datetime.timedelta(seconds=90), datetime.timedelta(0)],
     datetime.timezone: [datetime.timezone.utc, datetime.timezone(datetime.timedelta(hours=-3, minutes=-30))],
     zoneinfo.ZoneInfo: [],
     uuid.UUID: [uuid.UUID(int=5)],
@@ -117,7 +117,7 @@ def instances(t, owner=None, depth=0):
         return dataclass_instances(t, depth + 1)
     if isinstance(t, type) and hasattr(t, "_serialize") and hasattr(t, "_deserialize"):
         try:
-            return [t(1), t("s")]
+            return [t(0), t(1), t("s")]
         except Exception:
             return []
     if o is tuple or t is tuple:
@@ -219,9 +219,18 @@ def mutate(d):
         out += [d + " ", d.upper()]
     elif isinstance(d, (list, tuple)):
         out += [list(d) + [None], list(d) + list(d), tuple(d), list(d)[:-1], [mutate(x)[0] if mutate(x) else x for x in d]]
+        for i in range(min(len(d), 4)):
+            for j in FALSY + [None]:
+                out.append(list(d[:i]) + [j] + list(d[i + 1:]))
     elif isinstance(d, dict):
         out += [dict(d, extra=1), {k: v for k, v in list(d.items())[:-1]}, {k: (mutate(v)[0] if mutate(v) else v) for k, v in d.items()}, list(d.items())]
+        for k in list(d)[:4]:
+            for j in FALSY + [None]:
+                out.append(dict(d, **{k: j}) if isinstance(k, str) else {**d, k: j})
     return out
+
+
+FALSY = [0, "", [], {}, False, 0.0]
 
 
 def same(a, b, depth=0):
